@@ -81,7 +81,7 @@ static int decode_filename(const char *filename, size_t line_no, char *buffer)
 		}
 
 		if (*src != '\0')
-			return -1;
+			goto fail_trailing;
 
 		*dst = '\0';
 	}
@@ -100,6 +100,10 @@ fail_escape:
 fail_match:
 	fprintf(stderr, "%s: " PRI_SZ ": Unmatched '\"' in filename.\n",
 		filename, line_no);
+	return -1;
+fail_trailing:
+	fprintf(stderr, "%s: " PRI_SZ ": Unexpected data after quoted "
+		"filename.\n", filename, line_no);
 	return -1;
 }
 
@@ -239,8 +243,10 @@ int fstree_sort_files(fstree_t *fs, sqfs_istream_t *sortfile)
 				       ISTREAM_LINE_SKIP_EMPTY);
 		if (ret != 0) {
 			free(line);
-			if (ret < 0)
+			if (ret < 0) {
+				sqfs_perror(filename, "reading line", ret);
 				return -1;
+			}
 			break;
 		}
 
